@@ -738,14 +738,22 @@ func (n *NamespaceManager) ConfigFingerprint() string {
 // username+password是全局唯一的, 而username可以对应多个namespace
 type UserManager struct {
 	users          map[string][]string // key: user name, value: user password, same user may have different password, so array of passwords is needed
-	userNamespaces map[string]string   // key: UserName+Password, value: name of namespace
+	userNamespaces map[userKey]string  // key: (UserName, Password), value: name of namespace
+}
+
+// userKey identifies one credential. A struct key keeps user name and password
+// apart whatever characters they contain (a concatenated "user:password" string
+// cannot be split back unambiguously when either part contains ':').
+type userKey struct {
+	username string
+	password string
 }
 
 // NewUserManager constructor of UserManager
 func NewUserManager() *UserManager {
 	return &UserManager{
 		users:          make(map[string][]string, 64),
-		userNamespaces: make(map[string]string, 64),
+		userNamespaces: make(map[userKey]string, 64),
 	}
 }
 
@@ -864,13 +872,12 @@ func (u *UserManager) GetNamespaceByUser(userName, password string) string {
 	return ""
 }
 
-func getUserKey(username, password string) string {
-	return username + ":" + password
+func getUserKey(username, password string) userKey {
+	return userKey{username: username, password: password}
 }
 
-func getUserAndPasswordFromKey(key string) (username string, password string) {
-	strs := strings.Split(key, ":")
-	return strs[0], strs[1]
+func getUserAndPasswordFromKey(key userKey) (username string, password string) {
+	return key.username, key.password
 }
 
 const (
